@@ -755,8 +755,26 @@ def execute(history, opts=None):
                         tw[i] = {"obj": o}
                 twin_ans = dict(_battery(tw, [i for i in ids if i in tw]))
                 nb = 0
+                def well_conditioned(names):
+                    # survivors carry sets whose members were hashed under the configuration
+                    # they were built in, twins under the current one: iteration order inside
+                    # the handlers differs, which is harmless for answers the property
+                    # determines (one object; a pair within eps/1000 at the current setting)
+                    # and decisive for pairs inside the tolerance band (e.g. 100 eps apart),
+                    # which the property's domain excludes
+                    if len(names) == 1:
+                        return True
+                    x, y = world.get(names[0]), world.get(names[1])
+                    if x is None or y is None or not M.power:
+                        return False
+                    for base, comp in ((x, y), (y, x)):
+                        if comp.get("base") is not None and world.get(comp["base"]) is base and comp.get("k") is not None and comp["k"] >= M.sig:
+                            return True
+                    return False
+
                 for n1, r2 in after:
-                    if n1 not in twin_ans or touched & set(n1.split(":", 1)[1].split(",")):
+                    names = n1.split(":", 1)[1].split(",")
+                    if n1 not in twin_ans or touched & set(names) or not well_conditioned(names):
                         continue
                     ctx.count("J4_twin_checks")
                     r3 = twin_ans[n1]
